@@ -3,10 +3,10 @@ package main
 // C08 — $badfilter disables exactly its twin rules, however many are present.
 
 import (
-	"os"
 	"fmt"
 	"go/token"
 	"go/types"
+	"os"
 	"sort"
 	"strings"
 
@@ -348,6 +348,7 @@ func runC08(c *Ctx) {
 	checkVerdictOnlyFromSelector(c, "C08.R10", gdb)
 	if !c.noImports {
 		importRules(c, runC03, map[string]string{"C03.R8": "C08.R6"}, map[string]string{"C08.R6": "the '/*' normalisation acts on the pattern part only, so a rule and its $badfilter twin get equal patterns (shared with C03.R8)"})
+		importRules(c, runC04, map[string]string{"C04.R12": "C08.R15"}, map[string]string{"C08.R15": "the $client entries the twin test compares are kept in their normal form (the parsed address, the masked prefix, the name as written), so the same client set written differently is the same modifier value (shared with C04.R12)"})
 		importRules(c, runC04, map[string]string{"C04.R3": "C08.R11"}, map[string]string{"C08.R11": "the list-valued modifiers the twin test compares element by element are sorted when a rule is loaded, so twins written in a different order compare equal (shared with C04.R3)"})
 		importRules(c, runC16, map[string]string{"C16.R8": "C08.R13"}, map[string]string{"C08.R13": "a modifier parsed later never wipes the option bits parsed before it, $badfilter among them (shared with C16.R8): '$badfilter,document' must stay a badfilter rule"})
 		importRules(c, runC12, map[string]string{"C12.R7": "C08.R12"}, map[string]string{"C08.R12": "a rule and its twin reach the engine as whole lines, however long (shared with C12.R7): a twin cut inside ',badfilter' is rejected and disables nothing"})
